@@ -816,6 +816,15 @@ fn residual_grid() -> Vec<Case18> {
             }
         }
     }
+    // block sizes far beyond the vectors, with large quotients (products that overflow usize)
+    for &block in &[BIG, usize::MAX, usize::MAX / 2, 1usize << 40] {
+        for &order in &[0usize, 1, 3] {
+            for qmode in [1u8, 2, 5] {
+                let params = vec![1u8; 1 << order];
+                v.push(Case18::Residual(ResArgs { order, block, warmup: 0, params, nq: 2, nr: 2, qmode, rmode: 1, seed: 4294967295 }));
+            }
+        }
+    }
     // mixed parameters, one of them out of range
     for bad in [15u8, 16, 31, 200] {
         for pos in 0..4 {
@@ -1319,9 +1328,228 @@ pub fn run(ctx: &Ctx) {
     ctx.exhaustive.store(true, std::sync::atomic::Ordering::Relaxed);
     let per = ctx.tier.scale(25_000, 20);
     ctx.search("generated", 16, per, &case_strategy, check);
+    if ctx.tier == crate::core::Tier::Thorough {
+        crate::fuzzrun::campaign(ctx, "fz_ctor", 8, fuzz_runs(400_000), 256);
+    }
+}
+
+fn fuzz_runs(default: u64) -> u64 {
+    std::env::var("VH_FUZZ_RUNS").ok().and_then(|s| s.parse().ok()).unwrap_or(default)
 }
 
 pub fn replay(path: &str) -> Result<Outcome, String> {
     let (_k, case): (String, Case18) = crate::core::load_replay(path)?;
     Ok(check(&case))
+}
+
+// ------------------------------------------------------------------------------------------
+// fuzzer bytes -> case (coverage-guided search over the same argument space, thorough tier)
+// ------------------------------------------------------------------------------------------
+
+fn pick<T: Copy>(c: &mut crate::util::Cursor, xs: &[T]) -> T {
+    xs[c.range(0, xs.len() - 1)]
+}
+
+fn fz_usize(c: &mut crate::util::Cursor, small_hi: usize) -> usize {
+    match c.u8() % 8 {
+        0..=4 => c.range(0, small_hi),
+        5 => pick(c, &[0usize, 1, 15, 16, 255, 256, 32767, 32768, 65535, 65536]),
+        6 => c.u32() as usize,
+        _ => pick(c, &[BIG, usize::MAX, (1usize << 36) - 1, 1usize << 36, (1 << 24) - 1, 1 << 24]),
+    }
+}
+
+fn fz_res(c: &mut crate::util::Cursor) -> ResArgs {
+    let order = c.range(0, 6);
+    let k = c.range(1, 40);
+    let block = k << order;
+    let mut a = ResArgs::consistent(order, block, c.range(0, 34).min(k), c.range(0, 16) as u8, c.range(0, 5) as u8, c.u32() as u64);
+    if block > 512 && a.qmode == 5 {
+        a.qmode = 4;
+    }
+    a.rmode = c.range(0, 4) as u8;
+    // perturbations
+    let p = c.u8();
+    if p & 1 != 0 {
+        match c.u8() % 10 {
+            0 => a.params.push(c.u8()),
+            1 => {
+                a.params.pop();
+            }
+            2 => a.nq = fz_usize(c, 200).min(70_000),
+            3 => a.nr = fz_usize(c, 200).min(70_000),
+            4 => {
+                a.block = fz_usize(c, 3000);
+                if a.block <= 70_000 && p & 2 != 0 {
+                    a.nq = a.block;
+                    a.nr = a.block;
+                }
+            }
+            5 => a.order = fz_usize(c, 20),
+            6 => a.warmup = fz_usize(c, 80),
+            7 => {
+                if !a.params.is_empty() {
+                    let i = c.range(0, a.params.len() - 1);
+                    a.params[i] = c.u8();
+                }
+            }
+            _ => {}
+        }
+    }
+    a
+}
+
+fn fz_qp(c: &mut crate::util::Cursor) -> QpArgs {
+    let valid = c.u8() % 4 != 0;
+    if valid {
+        let order = c.range(1, 24);
+        QpArgs { ncoefs: order, order, shift: c.range(0, 15) as i8, precision: c.range(1, 15), cmode: pick(c, &[0u8, 1, 1, 4]), seed: c.u32() as u64 }
+    } else {
+        let order = fz_usize(c, 34);
+        QpArgs { ncoefs: if c.u8() & 1 == 0 { order.min(40) } else { c.range(0, 40) }, order, shift: c.u8() as i8, precision: fz_usize(c, 17), cmode: c.range(0, 4) as u8, seed: c.u32() as u64 }
+    }
+}
+
+fn fz_bps(c: &mut crate::util::Cursor) -> usize {
+    match c.u8() % 8 {
+        0..=3 => pick(c, &[8usize, 12, 16, 20, 24]),
+        4 => pick(c, &[9usize, 13, 17, 21, 25]),
+        5 => c.range(0, 40),
+        _ => fz_usize(c, 300),
+    }
+}
+
+fn fz_sub(c: &mut crate::util::Cursor) -> SubArgs {
+    match c.u8() % 4 {
+        0 => SubArgs::Constant { block: fz_usize(c, 5000), dc: c.u32() as i32 >> (c.u8() % 32), bps: fz_bps(c) },
+        1 => SubArgs::Verbatim { len: fz_usize(c, 600).min(70_000), bps: fz_bps(c), mode: c.range(0, 3) as u8, seed: c.u32() as u64 },
+        2 => {
+            let mut res = fz_res(c);
+            let agree = c.u8() % 4 != 0;
+            let wl = if agree { res.warmup.min(4) } else { c.range(0, 6) };
+            if agree {
+                res.warmup = wl;
+            }
+            SubArgs::Fixed { warm: WarmArgs { len: wl, mode: c.range(0, 3) as u8, seed: c.u32() as u64 }, res, bps: fz_bps(c) }
+        }
+        _ => {
+            let mut qp = fz_qp(c);
+            let mut res = fz_res(c);
+            let agree = c.u8() % 4 != 0;
+            let mut wl = qp.order.min(40);
+            if agree && qp.order <= 32 {
+                let o = qp.order.min((res.block >> res.order.min(20)).max(1));
+                qp.order = o;
+                qp.ncoefs = o;
+                res.warmup = o;
+                wl = o;
+            } else if c.u8() & 1 == 0 {
+                wl = c.range(0, 34);
+            }
+            SubArgs::Lpc { warm: WarmArgs { len: wl, mode: c.range(0, 3) as u8, seed: c.u32() as u64 }, qp, res, bps: fz_bps(c) }
+        }
+    }
+}
+
+fn fz_header(c: &mut crate::util::Cursor) -> HeaderArgs {
+    let assign = match c.u8() % 8 {
+        0..=4 => c.range(1, 8) as u8,
+        5 | 6 => 100 + c.range(0, 2) as u8,
+        _ => c.u8(),
+    };
+    let offset = match c.u8() % 4 {
+        0 => c.range(0, 300) as u64,
+        1 => {
+            let b = c.range(0, 37) as u32;
+            if b == 0 { 0 } else { (1u64 << (b - 1)) | (c.u64() & ((1u64 << (b - 1)) - 1)) }
+        }
+        _ => c.u64(),
+    };
+    HeaderArgs { block: fz_usize(c, 5000), assign, bps: fz_bps(c), rate: fz_usize(c, 100_000), variable: c.u8() & 1 != 0, offset }
+}
+
+fn fz_frame(c: &mut crate::util::Cursor) -> FrameArgs {
+    let mut h = fz_header(c);
+    h.block = 1 + h.block % 300;
+    if h.bps < 8 || h.bps > 24 || h.bps % 4 != 0 {
+        h.bps = 16;
+    }
+    if !(1..=8).contains(&h.assign) && !(100..=102).contains(&h.assign) {
+        h.assign = 2;
+    }
+    h.offset &= (1 << 31) - 1;
+    let ch = h.channels();
+    let side = |c: usize| -> usize {
+        match h.assign {
+            100 | 102 => (c == 1) as usize,
+            101 => (c == 0) as usize,
+            _ => 0,
+        }
+    };
+    let mut subs: Vec<SubArgs> = (0..ch).map(|i| consistent_sub(c.u8(), h.block, h.bps + side(i), c.u32() as u64)).collect();
+    if c.u8() % 3 == 0 {
+        let i = c.range(0, ch - 1);
+        match c.u8() % 6 {
+            0 => subs[i] = consistent_sub(c.u8(), h.block + 1 + c.range(0, 7), h.bps + side(i), 1),
+            1 => subs[i] = consistent_sub(c.u8(), h.block, h.bps + side(i) + 4, 2),
+            2 => {
+                subs.pop();
+            }
+            3 => subs.push(consistent_sub(0, h.block, h.bps, 3)),
+            4 => subs[i] = consistent_sub(c.u8(), h.block, h.bps + 1 - side(i), 4),
+            _ => subs[i] = fz_sub(c),
+        }
+    }
+    FrameArgs { header: h, subs }
+}
+
+fn fz_info(c: &mut crate::util::Cursor) -> InfoArgs {
+    let ops = match c.u8() % 4 {
+        0 => vec![],
+        1 => {
+            let (a, b) = (c.range(16, 32767), c.range(16, 32767));
+            vec![InfoOp::BlockSizes(a.min(b), a.max(b))]
+        }
+        _ => {
+            let (a, b) = (c.range(16, 32767), c.range(16, 32767));
+            let (f0, f1) = ((c.u32() & 0xFF_FFFF) as usize, (c.u32() & 0xFF_FFFF) as usize);
+            vec![InfoOp::BlockSizes(a.min(b), a.max(b)), InfoOp::FrameSizes(f0.min(f1), f0.max(f1)), InfoOp::Total((c.u64() & ((1 << 36) - 1)) as usize), InfoOp::Md5(c.u8())]
+        }
+    };
+    InfoArgs { rate: fz_usize(c, 100_000), channels: if c.u8() % 4 == 0 { fz_usize(c, 300) } else { c.range(1, 8) }, bps: fz_bps(c), ops }
+}
+
+pub fn case_from_bytes(data: &[u8]) -> Case18 {
+    let mut c = crate::util::Cursor { d: data, i: 0 };
+    match c.u8() % 10 {
+        0 | 1 => Case18::Residual(fz_res(&mut c)),
+        2 => Case18::Qp(fz_qp(&mut c)),
+        3 | 4 => Case18::Sub(fz_sub(&mut c)),
+        5 => Case18::Header(fz_header(&mut c)),
+        6 | 7 => Case18::Frame(fz_frame(&mut c)),
+        8 => Case18::Info(fz_info(&mut c)),
+        _ => {
+            if c.u8() & 1 == 0 {
+                Case18::Unknown { tag: c.u8(), len: c.range(0, 300) }
+            } else {
+                let mut info = fz_info(&mut c);
+                let via_new = c.u8() & 1 != 0;
+                let meta: Vec<(u8, usize)> = (0..c.range(0, 3)).map(|_| (c.u8(), c.range(0, 50))).collect();
+                let f0 = fz_frame(&mut c);
+                let n = c.range(0, 3);
+                info.channels = f0.header.channels();
+                info.bps = f0.header.bps;
+                info.rate = f0.header.rate.min(96_000);
+                let frames: Vec<FrameArgs> = (0..n)
+                    .map(|k| {
+                        let mut f = f0.clone();
+                        f.header.variable = false;
+                        f.header.offset = k as u64;
+                        f
+                    })
+                    .collect();
+                Case18::Stream { info, via_new, meta, frames }
+            }
+        }
+    }
 }
